@@ -7,7 +7,8 @@
 (*   multiples of 8 and of 64 occurs), one of its data bytes (the k-th) is *)
 (*   0x5b, and a JUMP - or a JUMPI with a non-zero condition - at the      *)
 (*   start of the program targets exactly that byte.  Variants: the code   *)
-(*   ends inside the push data (right at the targeted byte), and a control *)
+(*   ends inside the push data (right at the targeted byte), a destination *)
+(*   >= 2^64 whose low 64 bits are the offset of a genuine JUMPDEST, and a control *)
 (*   that targets the real JUMPDEST placed right behind the push data.     *)
 (* The reference machine of Evm.tla runs every program (the exact          *)
 (* definition ValidDestDecl is asserted to agree with the machine's scan   *)
@@ -24,24 +25,38 @@ jvars == <<vars, par>>
 
 HeadOf(kind, t) == IF kind = "jump" THEN <<PUSH1 + 1, t \div 256, t % 256, JUMP>>
                    ELSE <<PUSH1, 1, PUSH1 + 1, t \div 256, t % 256, JUMPI>>
-HeadLen(kind) == IF kind = "jump" THEN 4 ELSE 6
-PushPos(a, kind) == IF a >= HeadLen(kind) THEN a ELSE a + 64
+(* a destination operand of 32 bytes: a wide value whose low 64 bits are the offset t of a genuine JUMPDEST  *)
+(* (2^64 + t, 2^65 + t, 2^128 + t, 2^255 + t, 2^256 - 2^64 + t): it does not fit, the jump is invalid        *)
+WideBE(w, t) == [i \in 1..32 |->
+                  LET r == 32 - i IN        \* byte position counted from the least significant
+                  IF r = 0 THEN t % 256 ELSE IF r = 1 THEN t \div 256
+                  ELSE CASE w = 1 -> IF r = 8 THEN 1 ELSE 0
+                         [] w = 2 -> IF r = 8 THEN 2 ELSE 0
+                         [] w = 3 -> IF r = 16 THEN 1 ELSE 0
+                         [] w = 4 -> IF r = 31 THEN 128 ELSE 0
+                         [] OTHER -> IF r >= 8 THEN 255 ELSE 0]
+WideHead(kind, w, t) == IF kind = "jump" THEN <<PUSH32>> \o WideBE(w, t) \o <<JUMP>>
+                        ELSE <<PUSH1, 1, PUSH32>> \o WideBE(w, t) \o <<JUMPI>>
+HeadLen(c) == IF c.mode = "wide" THEN (IF c.kind = "jump" THEN 34 ELSE 36) ELSE (IF c.kind = "jump" THEN 4 ELSE 6)
+PushPos(c) == LET h == HeadLen(c) IN IF c.a >= h THEN c.a ELSE IF c.a + 64 >= h THEN c.a + 64 ELSE c.a + 128
 DataOf(n, k) == [i \in 1..n |-> IF i = k THEN JUMPDEST ELSE 0]
 
 Build(c) ==
-  LET p == PushPos(c.a, c.kind)
-      pad == [i \in 1..(p - HeadLen(c.kind)) |-> JUMPDEST]
-      t == IF c.mode = "valid" THEN p + c.n + 1 ELSE p + c.k
+  LET p == PushPos(c)
+      pad == [i \in 1..(p - HeadLen(c)) |-> STOP]
+      t == IF c.mode = "valid" THEN p + c.n + 1 ELSE IF c.mode = "wide" THEN p ELSE p + c.k
       body == CASE c.mode = "data"  -> <<PUSH0 + c.n>> \o DataOf(c.n, c.k) \o <<STOP>>
                 [] c.mode = "cut"   -> <<PUSH0 + c.n>> \o SubSeq(DataOf(c.n, c.k), 1, c.k)
                 [] c.mode = "valid" -> <<PUSH0 + c.n>> \o DataOf(c.n, c.k) \o <<JUMPDEST, STOP>>
-  IN HeadOf(c.kind, t) \o pad \o body
+                [] c.mode = "wide"  -> <<JUMPDEST, STOP>>          \* the genuine JUMPDEST at offset p
+  IN (IF c.mode = "wide" THEN WideHead(c.kind, c.n, t) ELSE HeadOf(c.kind, t)) \o pad \o body
 
 Cases ==
   [mode : {"data"}, kind : {"jump"}, n : Widths, a : Aligns, k : 1..32] \cup
   {c \in [mode : {"data"}, kind : {"jumpi"}, n : Widths, a : Aligns, k : 1..32] : c.k = c.n} \cup
   {c \in [mode : {"cut"}, kind : {"jump"}, n : Widths, a : Aligns, k : {1, 7, 8, 9}] : c.k < c.n} \cup
-  {c \in [mode : {"valid"}, kind : {"jump", "jumpi"}, n : Widths, a : Aligns, k : {1}] : TRUE}
+  {c \in [mode : {"valid"}, kind : {"jump", "jumpi"}, n : Widths, a : Aligns, k : {1}] : TRUE} \cup
+  [mode : {"wide"}, kind : {"jump", "jumpi"}, n : 1..5, a : Aligns, k : {1}]
 
 JInit == /\ par \in {c \in Cases : c.k <= c.n}
          /\ code = Build(par) /\ data = <<>> /\ st = InitState /\ status = "run" /\ jumped = FALSE /\ ret = <<>>
@@ -54,7 +69,7 @@ JDump == status # "run" => PrintT(<<"PROG", ToJson(Final)>>)
 JExpect == status # "run" => (status = IF par.mode = "valid" THEN "stop" ELSE "fault:jump")
 (* the machine's scan and the definition agree on the targeted byte and its neighbours (on every position of *)
 (* every program in the exhaustive configurations of Evm.tla)                                               *)
-Target == PushPos(par.a, par.kind) + (IF par.mode = "valid" THEN par.n + 1 ELSE par.k)
+Target == PushPos(par) + (IF par.mode = "valid" THEN par.n + 1 ELSE IF par.mode = "wide" THEN 0 ELSE par.k)
 JAgree == (status = "run" /\ st.pc = 0) =>
             \A d \in {Target - 1, Target, Target + 1} : ValidDest(code, FromNat(d, 256)) <=> ValidDestDecl(code, d)
 JInv == PcOnInstr /\ JumpLanding /\ JAgree /\ JExpect
